@@ -29,10 +29,26 @@ RULE = ("scenario = a root frame by any construction route (incl. float32 data l
 COMPONENTS = {"real": ["setigen.slice.get_slice", "setigen.dedrift.dedrift", "setigen.integrate (integrate, spectrum, timeseries)",
                        "setigen.frame.Frame.from_data", "blimpy Waterfall (loaded parents)"],
               "stub": ["SimClock with jumps", "RefSigproc writer", "entropy seam"]}
-ASSUMPTIONS = ["slice bounds 0 <= l < r <= fchans", "a de-drift row whose offset lies within 1e-9 of a rounding boundary is not judged",
+ASSUMPTIONS = ["slice bounds 0 <= l < r <= fchans", "a de-drift row whose offset lies within 1e-9 of a rounding boundary is not judged, unless the offset is exactly k + 1/2 in every evaluation order (then round() means half to even)",
                "axes compared within 8 ulp of the largest frequency / time"]
-PROBES = ["parent_loaded_float32", "parent_has_waterfall", "derived_of_derived", "dedrift_negative", "dedrift_from_metadata",
+PROBES = ["dedrift_exact_half_channel_tie", "parent_loaded_float32", "parent_has_waterfall", "derived_of_derived", "dedrift_negative", "dedrift_from_metadata",
           "dedrift_rejected_too_steep", "clock_jump", "spectrum_frame", "timeseries_frame", "dedrift_peak_checked", "normalised"]
+
+
+def tie_class(eff, i, dt, df):
+    """Where does |d|*i*dt/df sit relative to a rounding boundary?  "exact": the rational value is k + 1/2 and every
+    association order of the floating-point evaluation hits it exactly, so round() (half to even, as in Python and
+    numpy) has one answer whatever the implementation; "near": within 1e-9 of a boundary otherwise (either side is
+    acceptable); "clear"."""
+    from fractions import Fraction
+    a = abs(float(eff))
+    xq = Fraction(a) * i * Fraction(float(dt)) / Fraction(float(df))
+    frac = xq - (xq.numerator // xq.denominator)
+    if frac == Fraction(1, 2):
+        xf = float(xq)
+        vals = [a * i * dt / df, a * (i * dt) / df, a * i * (dt / df), (a * dt / df) * i, (a / df) * i * dt, (a * dt) * i / df]
+        return "exact" if all(v == xf for v in vals) else "near"
+    return "near" if abs(float(frac) - 0.5) < 1e-9 else "clear"
 
 
 def generate(rng, tier):
@@ -61,7 +77,7 @@ def generate(rng, tier):
             ops.append({"op": "slice", "parent": parent, "a": a, "b": b})
         elif r < 0.65:
             mode = rng.choice(["rate", "rate", "rate", "own", "metadata", "too_steep"])
-            ops.append({"op": "dedrift", "parent": parent, "mode": mode, "px": rng.choice([0.0, 0.4, 1.0, -1.0, 2.3, -0.6, 0.05]),
+            ops.append({"op": "dedrift", "parent": parent, "mode": mode, "px": rng.choice([0.0, 0.4, 1.0, -1.0, 2.3, -0.6, 0.05, 0.5, -0.5, 1.5, -2.5, 0.25]),
                         "sign": rng.choice([1, -1])})
         elif r < 0.85:
             ops.append({"op": "integrate", "parent": parent, "axis": rng.choice(["t", "f", 0, 1]), "mode": rng.choice(["mean", "sum", "s"]),
@@ -215,8 +231,11 @@ def execute(sc, ctx):
                     rate = op["px"] * unit
                 eff = parent.metadata["drift_rate"] if rate is None else rate
                 max_off_x = abs(eff) * parent.tchans * parent.dt / parent.df
-                near = abs(max_off_x - math.floor(max_off_x) - 0.5) < 1e-9
-                max_off = int(np.round(max_off_x))
+                tc = tie_class(eff, parent.tchans, parent.dt, parent.df)
+                near = tc == "near"
+                if tc == "exact":
+                    ctx.hit("dedrift_exact_half_channel_tie")
+                max_off = int(np.round(max_off_x))        # half to even
                 raised = None
                 try:
                     child = stg.dedrift(parent, drift_rate=rate) if rate is not None else stg.dedrift(parent)
@@ -247,10 +266,13 @@ def execute(sc, ctx):
                 ok = True
                 for i in range(parent.tchans):
                     x = abs(eff) * i * parent.dt / parent.df
-                    if abs(x - math.floor(x) - 0.5) < 1e-9:
+                    tc = tie_class(eff, i, parent.dt, parent.df)
+                    if tc == "near":
                         ctx.ties += 1
                         continue
-                    off = int(np.round(x))
+                    if tc == "exact":
+                        ctx.hit("dedrift_exact_half_channel_tie")
+                    off = int(np.round(x))                # half to even, like the statement's round()
                     if eff >= 0:
                         want = pdata[i, off:off + W]
                     else:
